@@ -930,8 +930,8 @@ Definition short_parent_span : jv :=
 (* ================================================================== examples: hypotheses are satisfiable, legacy witnesses *)
 Definition model_case (q : quirks) (inp : input) : case :=
   match decode q inp with
-  | None => {| c_id := 0; c_in := inp; c_err := true; c_rows := []; c_tags := []; c_read := [] |}
-  | Some rs => {| c_id := 0; c_in := inp; c_err := false; c_rows := map fst rs; c_tags := List.concat (map snd rs);
+  | None => {| c_id := 0; c_in := inp; c_delivery := {| d_mode := 0; d_seed := 0 |}; c_err := true; c_rows := []; c_tags := []; c_read := [] |}
+  | Some rs => {| c_id := 0; c_in := inp; c_delivery := {| d_mode := 0; d_seed := 0 |}; c_err := false; c_rows := map fst rs; c_tags := List.concat (map snd rs);
                   c_read := map (read_row q (in_elems inp)) (map fst rs) |}
   end.
 
@@ -1174,3 +1174,37 @@ Proof.
     destruct (zipkin_checked_from nd es es 0%N z_init rows ps (fun k e H => H) Ed Hwf Ep) as [H1 [H2 H3]].
     now rewrite H1, (tags_ok_all _ _ H2), H3.
 Qed.
+
+(* ================================================================== delivery of the body
+   What the model predicts and what the oracle demands for a request do not depend on how its body was cut into
+   Reads; in particular the payload of the k-th Zipkin span is its own text (PRef k) under every delivery.  This holds
+   by construction (delivery is not an argument of the decoders), it is stated so that the check's treatment of the
+   segmented-delivery cases is explicit: the same expectation is compared with observations made under all deliveries. *)
+Lemma segmentation_irrelevant_l c d :
+  model_mismatch (with_delivery c d) = model_mismatch c /\ spec_violation (with_delivery c d) = spec_violation c.
+Proof. split; reflexivity. Qed.
+
+Lemma zipkin_payload_from nd es : forall rows st i,
+  zipkin_from fixed nd i st es = Some rows ->
+  forall k sr, nth_error rows k = Some sr -> t_payload (fst sr) = PRef (i + N.of_nat k) /\ t_ptype (fst sr) = 1.
+Proof.
+  induction es as [|e es IH]; intros rows st i Hd k sr Hn.
+  - cbn in Hd. inversion Hd; subst. destruct k; discriminate Hn.
+  - cbn [zipkin_from] in Hd. replace (nd && q_nd_stateful fixed) with false in Hd by (cbn; now rewrite andb_false_r).
+    destruct (decode_span fixed (set_payload z_init (PRef i)) e) as [[sr0 st']|] eqn:Ed; [|discriminate].
+    destruct (zipkin_from fixed nd (i + 1) st' es) as [rs|] eqn:Er; [|discriminate]. inversion Hd; subst rows; clear Hd.
+    destruct k as [|k]; cbn [nth_error] in Hn.
+    + inversion Hn; subst sr0. clear IH. unfold decode_span in Ed. destruct e as [| | | | |fs|]; try discriminate.
+      destruct (z_fields fixed (set_payload z_init (PRef i)) fs) as [st1|] eqn:Ez; [|discriminate].
+      pose proof (reg_payload _ _ _ Ez) as Rpl. cbn [set_payload z_payload] in Rpl. unfold option_map in Ed.
+      destruct (on_span 1 (z_tid st1) (z_sid st1) (z_ts st1) (z_dur st1) (z_parent st1) (z_name st1) (z_svc st1) (z_payload st1)
+                        (z_kv st1 ++ [(k_service, z_svc st1)])%list) as [[row tags]|] eqn:Eo; [|discriminate].
+      inversion Ed; subst. apply on_span_some in Eo. destruct Eo as [_ [_ [-> _]]]. cbn. rewrite Rpl.
+      split; [f_equal; lia|reflexivity].
+    + destruct (IH rs st' (i + 1)%N Er k sr Hn) as [H1 H2]. split; [|exact H2]. rewrite H1. f_equal. lia.
+Qed.
+
+Lemma zipkin_payload_is_own_text nd es rows :
+  zipkin_decode fixed nd es = Some rows ->
+  forall k sr, nth_error rows k = Some sr -> t_payload (fst sr) = PRef (N.of_nat k) /\ t_ptype (fst sr) = 1.
+Proof. intros Hd k sr Hn. apply (zipkin_payload_from nd es rows z_init 0%N Hd k sr Hn). Qed.
